@@ -212,6 +212,7 @@ class State:
         self.path_id = ""
         self.binder_asms: list = []  # stack of lists collecting typing assumptions under quantifier binders
         self.call_records: list = []  # contract-abstracted calls in order (for replay)
+        self.objs: list = []  # (term, ClassInfo) of object-typed values met so far (candidates when grounding forall_obj)
         self.entry_params: Dict[str, Any] = {}
 
     # -- fresh names deterministic per path
@@ -270,6 +271,9 @@ class State:
         self.solver.add(c)
 
     def assume_wt(self, v: SV):
+        tt = T.strip_opt(v.ty)
+        if tt.k == "obj" and not self.binder_asms:
+            self.objs.append((v.t, tt.a[0]))
         w = self.wt(v.ty, v.t)
         if w is not None:
             self.assume(w)
@@ -1045,6 +1049,11 @@ class Interp:
             if z3.is_int_value(n) and n.as_long() <= 32:
                 ors = [self.eq(self.list_get(cont, z3.IntVal(j)), item) for j in range(n.as_long())]
                 return z3.Or(*ors) if ors else z3.BoolVal(False)
+            K = st.cfg.get("ground")
+            if K:
+                st.assume(n <= K)
+                ors = [z3.And(j < n, self.eq(self.list_get(cont, z3.IntVal(j)), item)) for j in range(K)]
+                return z3.Or(*ors)
             j = z3.Int(f"j!in{st.n_fresh}")
             st.n_fresh += 1
             el = z3.Select(z3.Select(st.arr("lel"), smt.rid(cont.t)), j)
